@@ -33,7 +33,7 @@ LEVEL = {"C10": "fault_enumeration", "C11": "exploration", "C14": "exploration"}
 CONFORM = {"quick": {"helper": 6, "api": 6, "daemon": 8}, "thorough": {"helper": None, "api": 80, "daemon": 80}}
 TIERS = {
     "quick": {"hash_seeds": 4, "C10": {"random": 120, "sweep_n": (0,), "typing_all": False},
-              "C11": {"runs": 140, "soak": 2}, "C14": {"runs": 260, "soak": 2}, "budget_s": 300},
+              "C11": {"runs": 120, "soak": 2}, "C14": {"runs": 220, "soak": 2}, "budget_s": 360},
     "thorough": {"hash_seeds": 32, "C10": {"random": 4000, "sweep_n": (0, 1), "typing_all": True},
                  "C11": {"runs": 6000, "soak": 60}, "C14": {"runs": 10000, "soak": 60}, "budget_s": 3000},
 }
